@@ -389,6 +389,14 @@ class Check:
             axs.update(t["axioms"])
         self.notes["axioms_used"] = sorted(axs)
         self.notes["theorems"] = [t["name"] for t in r["theorems"]]
+        if self.tier == "thorough" and r["ok"] and os.environ.get("VERIF_NO_COQCHK") is None:
+            # independent re-check of the compiled property file and everything it depends on
+            rc, out, err = sh(["coqchk", "-silent", "-o", "-Q", "theories", "SharkV", "-Q", "gen", "SharkGen",
+                               "SharkV.Properties_%s" % (pid or self.pid)], cwd=COQ, timeout=3000)
+            txt = out + err
+            m = re.search(r"\* Axioms:(.*?)(?:\n\s*\n|\Z)", txt, re.S)
+            self.notes["coqchk_axioms"] = (m.group(1).strip() if m else "")[:2000]
+            self.oblige("coqchk (independent checker) accepts Properties_%s.vo and all its dependencies" % (pid or self.pid), rc == 0, txt[-600:] if rc != 0 else self.notes["coqchk_axioms"][:200])
         return r
 
     # -- reporting
